@@ -130,16 +130,310 @@ def _ndims_guard(res: Resolver, expr: ast.AST, obj: str) -> bool:
     return False
 
 
+# functions whose construction sites are still judged by the syntax-level idiom checks below
+_OLD_IDIOM_FUNCS = {"vector.Vector.cast", "vector.Vector.fillna"}
+
+
 def _sites(ctx) -> None:
     prog = ctx.prog
-    sites = all_sites(prog)
     n_inferred = 0
-    for s in sites:
+    n_total = 0
+    for s in all_sites(prog):
+        if s.func.qualname in _OLD_IDIOM_FUNCS:
+            n_total += 1
+            try:
+                n_inferred += _one_site(ctx, s)
+            except AnalysisError as e:
+                ctx.analysis_errors.append(f"sites: {e}")
+    from ..sites2 import all_sites2
+    for s2 in all_sites2(prog):
+        if s2.qual in _OLD_IDIOM_FUNCS or s2.top.qualname in _OLD_IDIOM_FUNCS:
+            continue
+        n_total += 1
         try:
-            n_inferred += _one_site(ctx, s)
+            n_inferred += _one_site2(ctx, s2)
         except AnalysisError as e:
             ctx.analysis_errors.append(f"sites: {e}")
-    ctx.extra["construction_sites"] = {"total": len(sites), "dtype_absent": n_inferred}
+    ctx.extra["construction_sites"] = {"total": n_total, "dtype_absent": n_inferred}
+
+
+# ------------------------------------------------------------------------------------------- term-based site typing
+def ndims_guard2(s2, obj) -> bool:
+    """Is the site reached only when `obj` is 2-dimensional (a table: per-column recursion)?"""
+    from ..symx import const, flatten_conds
+    nd = ("call", ("attr", obj, "ndims"), (), ())
+    ls = ("call", ("name", "len"), (("attr", obj, "shape"),), ())
+    for t, pol in flatten_conds(s2.ev.conds):
+        if pol and t in (("cmp", "Eq", nd, const(2)), ("cmp", "Eq", ls, const(2)), ("cmp", "Gt", ls, const(1)), ("cmp", "Gt", nd, const(1))):
+            return True
+    return False
+
+
+def _is_param_of_top(s2, t) -> bool:
+    return t[0] == "param" and t[1] in s2.top.params
+
+
+def _local_root(t):
+    while t[0] in ("sub", "attr"):
+        t = t[1]
+    return t
+
+
+def _one_site2(ctx, s2) -> int:
+    from ..sites2 import leaves, vector_valued
+    from ..symx import NONE as SNONE
+    f = s2.func
+    it = s2.it
+    if s2.kind == "Table":
+        return 0
+    if s2.kind == "copy":
+        _copy_site2(ctx, s2)
+        return 0
+    if s2.dtype is None or s2.dtype == SNONE:
+        ctx.ob("a.inferred-sites", f, f"site:{_ord(ctx, f)}", True, f"{s2.sh(s2.call, 70)}: dtype inferred", s2.node)
+        return 1
+    if vector_valued(it, s2.data, f):
+        ctx.ob("a.site-typing", f, f"site:{_ord(ctx, f)}:table", True, f"table construction `{s2.sh(s2.call, 60)}`", s2.node)
+        return 0
+    datas = leaves(s2.data)
+    dts = leaves(s2.dtype)
+    if s2.qual == "vector.Vector.__new__":
+        ctx.ob("a.site-typing", f, f"site:{_ord(ctx, f)}:{s2.sh(s2.dtype, 30)}", True,
+               "Vector.__new__ hands its own arguments to Table(...): a table construction", s2.node)
+        return 0
+    if s2.qual == "vector.Vector.new" or s2.top.qualname == "vector.Vector.new":
+        ok, msg = _new_idiom2(ctx, s2, dts, datas)
+        ctx.ob("a.site-typing", f, f"site:{_ord(ctx, f)}:{s2.sh(s2.dtype, 30)}", ok, msg if ok else "", s2.node, message=msg)
+        return 0
+    problems, notes = [], []
+    for dt in dts:
+        v, why = _admissible2(ctx, s2, dt, datas)
+        if v is None:
+            raise AnalysisError(f"{f.qualname} line {getattr(s2.node, 'lineno', '?')}: cannot classify construction site "
+                                f"`{s2.sh(s2.call, 90)}` (dtype `{s2.sh(dt, 50)}`): {why}")
+        (notes if v else problems).append(why)
+    ctx.ob("a.site-typing", f, f"site:{_ord(ctx, f)}:{s2.sh(s2.dtype, 30)}", not problems, "; ".join(notes), s2.node,
+           message="; ".join(problems))
+    return 0
+
+
+def _admissible2(ctx, s2, dt, datas):
+    """(True, note) admissible; (False, message) violation; (None, reason) not classifiable."""
+    from ..sites2 import (comp_parts, const_bool_seq, const_dtype, dtype_of, element_values, is_bool_term, is_never_none_term,
+                          same_elements_of, strip_seq)
+    from ..symx import NONE as SNONE
+    from ..symx import flatten_conds
+    it = s2.it
+    f = s2.func
+    sh = s2.sh
+    if _is_param_of_top(s2, dt):
+        return (None, "dtype comes from a parameter")
+    if dt == SNONE:
+        return (True, "dtype None -> inferred")
+    # ---- INFER(same data)
+    if dt[0] == "call" and dt[1] == ("name", "infer_dtype") and len(dt[2]) == 1:
+        if strip_seq(it, dt[2][0]) == strip_seq(it, s2.data):
+            return (True, f"INFER over the data itself ({sh(s2.data, 30)})")
+        return (False, f"dtype is inferred from `{sh(dt[2][0], 50)}` but the vector stores `{sh(s2.data, 50)}`")
+    # ---- CONST
+    cd = const_dtype(dt)
+    if cd is not None:
+        K, nn = cd
+        Kt = K[1] if K[0] == "name" else sh(K, 20)
+        evs = [element_values(it, d) for d in datas if not _is_param_of_top(s2, d)]
+        has_param = any(_is_param_of_top(s2, d) for d in datas)
+        if Kt == "bool" and nn is False:
+            if datas and not has_param and all(const_bool_seq(it, d) for d in datas):
+                return (True, "CONST(bool) over constant booleans")
+            if datas and not has_param and all(e is not None for e in evs):
+                bad = [v for e in evs for v, _ in e if not is_bool_term(v)]
+                if bad:
+                    return (False, f"dtype is the constant non-nullable <bool> but an element is `{sh(bad[0], 60)}`, which "
+                                   f"need not be a bool (e.g. `&` on ints yields ints) or can be None")
+                return (True, "CONST(bool) with boolean element expressions")
+            return (None, "data of a constant-bool site is not a comprehension")
+        if nn is False:
+            if datas and not has_param and all(e is not None and all(is_never_none_term(it, v) for v, _ in e) for e in evs) and Kt == "object":
+                return (True, "CONST(object, non-nullable) with elements that cannot be None")
+            for d in datas:
+                if not _is_param_of_top(s2, d) and same_elements_of(it, d):
+                    obj = same_elements_of(it, d)[0]
+                    return (False, f"dtype is the constant non-nullable <{Kt}> but the data are {sh(obj, 20)}'s own elements, which may "
+                                   f"contain None" + ("" if Kt == "object" else " or values of another kind"))
+            return (None, f"constant non-nullable <{Kt}> over unclassified data")
+        # object kind with the SOURCE's nullability over the source's own elements (to_object)
+        src = None
+        okn = True
+        for nd in leaves_of(nn):
+            if nd == ("const", "bool", True):
+                continue
+            if nd[0] == "attr" and nd[2] == "nullable" and nd[1][0] == "attr" and nd[1][2] == "_dtype":
+                src = nd[1][1]
+            else:
+                okn = False
+        if Kt == "object" and okn and src is not None and datas and all(
+                not _is_param_of_top(s2, d) and same_elements_of(it, d) and same_elements_of(it, d)[0] == src for d in datas):
+            return (True, f"CONST(object) with {sh(src, 20)}'s own nullability over {sh(src, 20)}'s own elements")
+        return (None, f"constant dtype <{Kt}> with computed nullability")
+    # ---- OF(obj).with_nullable(X)
+    if dt[0] == "call" and dt[1][0] == "attr" and dt[1][2] == "with_nullable":
+        from ..symx import kw as _kw
+        base = dt[1][1]
+        obj = dtype_of(base)
+        arg = dt[2][0] if dt[2] else _kw(dt, "nullable")
+        if obj is not None and arg == ("const", "bool", False):
+            for d in datas:
+                se = same_elements_of(it, d) if not _is_param_of_top(s2, d) else None
+                if not (se and se[0] == obj and se[1] == "filter-not-none"):
+                    return (False, f"dtype is {sh(obj, 20)}'s made non-nullable, but the data `{sh(d, 60)}` "
+                                   f"are not {sh(obj, 20)}'s elements filtered by `is not None`")
+            return (True, f"OF({sh(obj, 20)}).with_nullable(False) over its not-None elements")
+        objs = {dtype_of(b) for b in leaves_of(base)}
+        if len(objs) == 1 and None not in objs:
+            o = next(iter(objs))
+            for d in datas:
+                if _is_param_of_top(s2, d):
+                    continue
+                se = same_elements_of(it, d)
+                if not (se and se[0] == o) and _local_root(strip_seq(it, d))[0] == "obj":
+                    return (False, f"`{sh(d, 60)}` (a locally built buffer, not {sh(o, 20)}'s own elements) is labelled with {sh(o, 20)}'s "
+                                   f"kind and a computed nullability instead of being re-inferred: padding or gathered values need not fit it")
+        return (None, "with_nullable with a computed flag")
+    # ---- OF(obj)
+    obj = dtype_of(dt)
+    if obj is not None:
+        kind_is_bool = (("cmp", "Is", ("attr", ("attr", obj, "_dtype"), "kind"), ("name", "bool")), True) in flatten_conds(s2.ev.conds)
+        for d in datas:
+            ds = strip_seq(it, d)
+            if ds[0] == "tuple" and not ds[1]:
+                continue           # no elements: every dtype is truthful
+            if ds[0] == "obj" and it.objs[ds[1]].kind == "list" and isinstance(it.objs[ds[1]].node, ast.List) \
+                    and not it.objs[ds[1]].init and not it._mutated(ds):
+                continue
+            if _is_param_of_top(s2, d):
+                if s2.qual == "vector.Vector.copy":
+                    continue       # copy(new_values): checked at every caller (a.copy-callers)
+                return (None, "data is a parameter")
+            se = same_elements_of(it, d)
+            if se and se[0] == obj:
+                continue
+            if s2.qual == "vector.Vector.copy" and _copy_sources_only2(s2, d, obj):
+                continue           # new_values / self._underlying selected by or / if-else / list(): same sources
+            evs = element_values(it, d)
+            if evs is not None and ds[0] == "obj" and it.objs[ds[1]].kind == "list" and not isinstance(it.objs[ds[1]].node, ast.Call):
+                # a buffer filled by append(): what is appended?
+                stor = ("attr", obj, "_underlying")
+                own = lambda v: (v[0] == "elem" and v[1] in (stor, obj)) or (v[0] == "sub" and v[1] in (stor, obj))
+                computed = [v for v, _ in evs if v != SNONE and not own(v)]
+                if computed:
+                    return (False, f"values accumulated into a buffer (`{sh(computed[0], 50)}`) are labelled with {sh(obj, 20)}'s dtype "
+                                   f"without re-inference: the result can hold values {sh(obj, 20)}'s dtype does not admit")
+                if all(own(v) for v, _ in evs):
+                    continue
+                return (None, f"buffer under {sh(obj, 20)}'s dtype not classified")
+            if evs is not None and evs and all(is_bool_term(v) for v, _ in evs) and kind_is_bool:
+                continue           # boolean results relabelled bool under a kind-is-bool guard
+            concatenated = ds[0] == "bin"
+            if evs is not None or concatenated or (se and se[0] != obj):
+                what = "computed" if evs is not None else "concatenated" if concatenated else f"{sh(se[0], 20)}'s"
+                return (False, f"{what} values `{sh(d, 60)}` are labelled with {sh(obj, 20)}'s dtype without re-inference: the result "
+                               f"can hold values {sh(obj, 20)}'s dtype does not admit")
+            if _local_root(ds)[0] == "obj":
+                return (False, f"`{sh(d, 60)}` (a locally built buffer, not {sh(obj, 20)}'s own elements) is labelled with "
+                               f"{sh(obj, 20)}'s dtype without re-inference: padding or gathered values need not fit it")
+            return (None, f"data `{sh(d, 50)}` under {sh(obj, 20)}'s dtype not classified")
+        return (True, f"OF({sh(obj, 20)}) over its own elements")
+    if dt[0] == "call" and dt[1] not in (("name", "infer_dtype"), ("name", "DataType")):
+        for d in datas:
+            if _is_param_of_top(s2, d):
+                continue
+            if _local_root(strip_seq(it, d))[0] == "obj" and not same_elements_of(it, d):
+                return (False, f"`{sh(d, 50)}` (a locally built buffer) is typed by `{sh(dt, 60)}` instead of by inference over its "
+                               f"own values: padding or gathered values need not fit a dtype computed elsewhere")
+    return (None, "dtype expression not recognised")
+
+
+def leaves_of(t):
+    from ..sites2 import leaves
+    return leaves(t) if isinstance(t, tuple) else [("const", "bool", bool(t))]
+
+
+def _copy_sources_only2(s2, d, obj, depth: int = 0) -> bool:
+    """Is the data of Vector.copy built only from its `new_values` parameter and obj's own storage?"""
+    from ..sites2 import same_elements_of, strip_seq
+    it = s2.it
+    if depth > 6:
+        return False
+    if _is_param_of_top(s2, d):
+        return True
+    ds = strip_seq(it, d)
+    if ds != d:
+        return _copy_sources_only2(s2, ds, obj, depth + 1)
+    if d[0] == "bool":
+        return all(_copy_sources_only2(s2, v, obj, depth + 1) for v in d[2])
+    if d[0] == "ifexp":
+        return _copy_sources_only2(s2, d[2], obj, depth + 1) and _copy_sources_only2(s2, d[3], obj, depth + 1)
+    se = same_elements_of(it, d)
+    return bool(se and se[0] == obj)
+
+
+def _copy_site2(ctx, s2) -> None:
+    from ..sites2 import leaves, same_elements_of
+    from ..symx import NONE as SNONE
+    f = s2.func
+    it = s2.it
+    recv = s2.recv
+    rs = s2.sh(recv, 30)
+    if s2.data is None or s2.data == SNONE:
+        ctx.ob("a.copy-callers", f, f"copy:{_ord(ctx, f)}", True, f"{rs}.copy(): same elements", s2.node)
+        return
+    table = (f.cls == "Table" and recv == ("param", "self")) or ndims_guard2(s2, recv)
+    if table:
+        ctx.ob("a.copy-callers", f, f"copy:{_ord(ctx, f)}", True,
+               f"{rs}.copy(<per-column results>) on a table (a Table has no dtype; columns are re-inferred)", s2.node)
+        return
+    problems = []
+    for d in leaves(s2.data):
+        if _is_param_of_top(s2, d):
+            problems.append(f"{rs}.copy(<parameter>) relabels caller data with {rs}'s dtype")
+            continue
+        se = same_elements_of(it, d)
+        if not (se and se[0] == recv):
+            problems.append(f"`{rs}.copy({s2.sh(d, 60)})` labels values that are not {rs}'s own elements with {rs}'s dtype")
+    ctx.ob("a.copy-callers", f, f"copy:{_ord(ctx, f)}", not problems, f"{rs}.copy({s2.sh(s2.data, 40)}): {rs}'s own elements",
+           s2.node, message="; ".join(problems))
+
+
+def _new_idiom2(ctx, s2, dts, datas):
+    """Vector.new(element, length): the stored data are `length` repetitions of the element; a dtype made non-nullable is only
+    used when the element is not None."""
+    from ..sites2 import element_values
+    from ..symx import flatten_conds, kw, subterms
+    it = s2.it
+    f = s2.top
+    elem = ("param", f.params[1])
+    problems = []
+    from ..sites2 import leaves_with_conds
+    fc = flatten_conds(s2.ev.conds)
+    for dt, dconds in leaves_with_conds(s2.dtype):
+        not_none = (("cmp", "Is", elem, ("const", "NoneType", None)), False) in (list(fc) + list(dconds))
+        for t in subterms(dt):
+            if t[0] == "call" and t[1][0] == "attr" and t[1][2] == "with_nullable":
+                a = t[2][0] if t[2] else kw(t, "nullable")
+                if a == ("const", "bool", False) and not not_none and s2.data is not None:
+                    problems.append(f"Vector.new makes the dtype non-nullable (`{s2.sh(t, 50)}`) even when the element is None: "
+                                    f"the vector would hold None under a non-nullable dtype")
+    if s2.data is not None:
+        for d in datas:
+            ev = element_values(it, d)
+            if ev is None:
+                ds = d
+                if ds[0] == "tuple" and not ds[1] or (ds[0] == "obj" and not it.objs[ds[1]].init and not ev):
+                    continue
+                raise AnalysisError("Vector.new: data is not [element for _ in range(length)]")
+            if any(v != elem for v, _ in ev):
+                raise AnalysisError("Vector.new: data is not [element for _ in range(length)]")
+    return (not problems, "; ".join(problems) if problems else "new idiom: dtype inferred from the repeated element")
 
 
 def _one_site(ctx, s: Site) -> int:
